@@ -197,9 +197,18 @@ def find_competitions(w: Walker, kinds: Kinds = None) -> List[Competition]:
         if li.kind != "while" or li.cond is None:
             continue
         c = li.cond
-        if not (c[0] == "not" and c[1][0] == "call" and c[1][1][0] == "attr" and c[1][1][2] == "is_empty"):
+        heap = None
+        if c[0] == "not" and c[1][0] == "call" and c[1][1][0] == "attr" and c[1][1][2] == "is_empty":
+            heap = c[1][1][1]
+        elif c[0] == "cmp":
+            # `h.last > -1`, `h.last >= 0`, `h.last != -1`: the emptiness predicate written out
+            for a, b in ((c[2], c[3]), (c[3], c[2])):
+                if a[0] == "attr" and a[2] == "last" and a[1][0] == "new" and a[1][1] == "Heap":
+                    if (c[1], a is c[3], b) in (("<", True, ("const", -1)), ("<=", True, ("const", 0)),
+                                                 ("!=", True, ("const", -1)), ("!=", False, ("const", -1))):
+                        heap = a[1]
+        if heap is None:
             continue
-        heap = c[1][1][1]
         inside = [e for e in w.events if li.lid in e.loops]
         rem = None
         for e in inside:
